@@ -1,5 +1,6 @@
 import TddaVerif.Drv.Util
 import TddaVerif.Model.Rexpy
+import TddaVerif.Model.RexpySampled
 import TddaVerif.Model.RexpyRender
 open Lean TddaVerif.Drv TddaVerif.Py TddaVerif.Rexpy
 
@@ -48,6 +49,28 @@ def handle (op : String) (j : Json) : Option (R Json) :=
         pure (Json.mkObj [
           ("rex", ofList (fun p => ofChars (patternText E dialect tag wsWrap p)) ps),
           ("ast", ofList (ofList fragJson) ps),
+          ("extras", ofChars E)])
+  | "rx.extract_sampled" => some do
+      let T ← parseTable (← fld j "table")
+      let o ← parseOpts (← fld j "opts")
+      let tag ← asBool (fldD (← fld j "opts") "tag" (Json.bool false))
+      let dialect ← asNat (fldD (← fld j "opts") "dialect" (ofNat 0))
+      let items ← asList (fun it => do
+          let a ← asArr it
+          pure ((← asOpt asChars a[0]!), (← asNat a[1]!))) (← fld j "items")
+      let c ← fld j "cfg"
+      let cfg : SampleCfg := { doAll := ← asNat (← fld c "do_all"), doAllExceptions := ← asNat (← fld c "do_all_exceptions"),
+                               maxAttempts := ← asNat (← fld c "max_attempts") }
+      -- the recorded results of the calls of random.sample, in order
+      let picks ← asList (asList (fun e => do
+          let a ← asArr e
+          pure ((← asChars a[0]!), (← asNat a[1]!)))) (← fld j "picks")
+      let pick : Pick := fun ev _ _ => picks.getD ev []
+      match extractSampled T o cfg pick items with
+      | none => throw "AssertionError"
+      | some (ps, E, wsWrap) =>
+        pure (Json.mkObj [
+          ("rex", ofList (fun p => ofChars (patternText E dialect tag wsWrap p)) ps),
           ("extras", ofChars E)])
   | "rx.clean" => some do
       let items ← asList (fun it => do
